@@ -3,3 +3,28 @@ from pyvc.registry import declare_fields
 
 declare_fields('MemoryZone', _address_bits='int', _start='int', _end='int', _name='str', _current_address='int')
 declare_fields('MemoryZoneManager', _address_bits='int', _zones='dict[str,MemoryZone]')
+
+# ---- byte code parts ------------------------------------------------------------------------------
+declare_fields('ByteCodePart', _value_size='int', _byte_align='bool', _endian='str', _line_id='LineIdentifier')
+declare_fields('NumericByteCodePart', _value='int')
+declare_fields('ExpressionByteCodePart', _expression='str', _parsed_expression='ExpressionNode')
+declare_fields('ExpressionByteCodePartWithValidation', _max='int?', _min='int?')
+declare_fields('ExpressionByteCodePartInMemoryZone', _memzone='MemoryZone?')
+declare_fields('ExpressionEnumerationByteCodePart', _value_dict='dict[int,int]')
+declare_fields('CompositeByteCodePart', _parts_list='list[ByteCodePart]')
+declare_fields('RelativeAddressByteCodePart', _min_relative_value='int?', _max_relative_value='int?',
+               _offset_from_instruction_end='bool')
+declare_fields('AddressByteCodePart', _is_lsb_bytes='bool', _match_address_msb='bool')
+declare_fields('LineIdentifier', _filename='str?', _line_num='int')
+
+# ---- expressions / label scopes ---------------------------------------------------------------------
+declare_fields('ExpressionNode', token_type='TokenType', left_child='ExpressionNode?', right_child='ExpressionNode?',
+               _is_unary='bool')
+declare_fields('LabelScope', _type='LabelScopeType', _parent='LabelScope?', _reference='str',
+               _labels='dict[str,LabelInfo]')
+declare_fields('LabelInfo', _label='str', _value='int', _line_id='LineIdentifier')
+declare_fields('GlobalLabelScope', _register_labels='set[str]')
+
+declare_fields('PackedBits', _bytes='bytearray', _cur_byte_idx='int', _cur_bit_idx='int')
+declare_fields('AssembledInstruction', _parts='list[ByteCodePart]', _line_id='LineIdentifier', _byte_size='int')
+declare_fields('CompositeAssembledInstruction', _instructions='list[AssembledInstruction]')
